@@ -89,6 +89,7 @@ type Sim struct {
 	taken    map[int64]bool
 	pointN   map[string]int
 	Holds    int // holds that actually took effect
+	Free     bool // uncontrolled mode: yield points do not park, the Go scheduler decides (race detector runs)
 	// critical sections of repo code that contain yield points (a real mutex
 	// held across yields): a task parked at the Enter point is not eligible
 	// while another task is inside the section. Keyed by Enter point.
@@ -266,6 +267,10 @@ func (s *Sim) Yield(point string) { s.Hook(point, nil) }
 
 // Hook is installed as server.SimHook: a scheduling point in repo code.
 func (s *Sim) Hook(point string, arg any) {
+	if s.Free {
+		runtime.Gosched() // still a good place to let others in
+		return
+	}
 	if !s.active.Load() || s.disabled[point] {
 		return
 	}
@@ -292,7 +297,7 @@ func (s *Sim) Hook(point string, arg any) {
 }
 
 func (s *Sim) park(t *Task, point string, arg any) {
-	if !s.active.Load() {
+	if !s.active.Load() || s.Free {
 		return
 	}
 	s.mu.Lock()
@@ -400,6 +405,9 @@ func (s *Sim) unpark(t *Task) {
 // Run is the scheduler loop; it must be called from the bubble's root
 // goroutine after the actors were started with Go.
 func (s *Sim) Run() error {
+	if s.Free {
+		return s.runFree()
+	}
 	defer s.Stop()
 	for {
 		synctest.Wait()
@@ -558,4 +566,27 @@ func (s *Sim) decideReplay(parked []*Task) *Task {
 		s.Diverge++
 	}
 	return parked[0]
+}
+
+// runFree waits for the actors without deciding anything: virtual time still
+// advances when every goroutine is blocked, but interleavings are the Go
+// scheduler's (this is the mode in which the race detector can fire).
+func (s *Sim) runFree() error {
+	defer s.Stop()
+	deadline := s.NewTimer(s.knobs.MaxVirtual)
+	defer deadline.Stop()
+	for {
+		s.mu.Lock()
+		n := s.actors
+		s.mu.Unlock()
+		if n == 0 {
+			return nil
+		}
+		select {
+		case <-s.arrival:
+		case <-deadline.C:
+			s.Budget = "virtual>" + s.knobs.MaxVirtual.String()
+			return nil
+		}
+	}
 }
